@@ -180,7 +180,7 @@ impl Property for C17S {
                 11 if use_traps => Block::Trapa(rng.range(1, 3) as u8),
                 12 => {
                     if rng.chance(1, 2) {
-                        Block::Arith(rng.u8())
+                        if rng.chance(1, 2) { Block::Arith(rng.u8()) } else { Block::Filler(rng.u32()) }
                     } else {
                         // registers of the other (unimplemented) timer channels are plain storage: channel 0 must not notice
                         let addr = *rng.pick(&[0xffff81u32, 0xffff83, 0xffff85, 0xffff87, 0xffff89, 0xffff90, 0xffff91, 0xffff92, 0xffff93, 0xffff94, 0xffff95, 0xffff96, 0xffff97, 0xffff98, 0xffff99]);
